@@ -183,6 +183,64 @@ def multi_dim_midpoints(rep, tier):
                     break
 
 
+def multi_dim_weights(rep, tier, rng):
+    """ONE weighted grid object serving several dimensions with different distributions: the weights it returns for dimension d must be
+    the weights of d's distribution (= those of a fresh one-dimensional object), for identical point sets and bounds in all dimensions,
+    in any query order and when asked repeatedly."""
+    from sparseSpACE.GridOperation import UncertaintyQuantification
+    from sparseSpACE.Grid import GlobalTrapezoidalGridWeighted as GW
+    from sparseSpACE.Function import ConstantValue
+    cases = [([("Triangle", 0.5), ("Uniform",)], [(0.0, 1.0), (0.0, 1.0)]), ([("Uniform",), ("Triangle", 0.25)], [(0.0, 1.0), (0.0, 1.0)]),
+             ([("Triangle", 0.5), ("Triangle", 0.75), ("Uniform",)], [(0.0, 1.0)] * 3), ([("Uniform",), ("Triangle", 0.0)], [(-1.0, 2.0), (-1.0, 2.0)]),
+             ([("Normal", 0.5, 0.2), ("Uniform",)], [(0.0, 1.0), (0.0, 1.0)]), ([("Uniform",), ("Uniform",)], [(0.0, 1.0), (0.0, 2.0)])]
+    pointsets = [[0, 8, 16], [0, 4, 8, 16], [0, 4, 8, 12, 16], [0, 2, 4, 8, 16], [0, 8, 12, 14, 16], [0, 1, 2, 4, 8, 12, 16]]
+    for info, bounds in cases:
+        D = len(info)
+        a = np.array([lo for lo, _ in bounds])
+        b = np.array([hi for _, hi in bounds])
+        for bnd in (True, False):
+            try:
+                with impl.quiet():
+                    op = UncertaintyQuantification(ConstantValue(1.0), [tuple(k) for k in info], a, b)
+                    grid = GW(a, b, op, boundary=bnd)
+                    singles = []
+                    for d in range(D):
+                        op1 = UncertaintyQuantification(ConstantValue(1.0), [tuple(info[d])], np.array([a[d]]), np.array([b[d]]))
+                        singles.append(op1.get_distributions()[0])
+            except Exception as ex:
+                rep.violation('C15_NoException', {'distribution': 'multi', 'exception': type(ex).__name__}, {'info': str(info), 'exception': repr(ex)}, what='%s raised %r' % (info, ex))
+                continue
+            for ps in (pointsets if tier == 'thorough' else pointsets[:4]):
+                if not bnd and len(ps) <= 3:
+                    continue
+                order = list(range(D)) * 2
+                rng.shuffle(order)
+                for d in order:
+                    xs = [float(a[d] + (b[d] - a[d]) * v / 16) for v in ps]
+                    try:
+                        with impl.quiet(), impl.watchdog(60):
+                            w = [float(v) for v in grid.compute_1D_quad_weights(list(xs), float(a[d]), float(b[d]), d)]
+                            ref = [float(v) for v in GW.compute_weights(list(xs), float(a[d]), float(b[d]), singles[d], bnd, False)]
+                    except impl.Timeout:
+                        rep.exclude('multi-dimensional weights %s: timeout' % (info,))
+                        continue
+                    except Exception as ex:
+                        rep.violation('C15_NoException', {'distribution': 'multi', 'exception': type(ex).__name__}, {'info': str(info), 'exception': repr(ex)}, what='weights of %s dimension %d raised %r' % (info, d, ex))
+                        continue
+                    rep.count(1, key=('multiw', str(info), str(bounds), bnd, tuple(ps), d))
+                    kind = info[d][0].lower()
+                    tol = 1e-9 if kind == 'uniform' else 1e-6
+                    bad = len(w) != len(ref) or any(abs(x - y) > tol for x, y in zip(w, ref))
+                    if kind == 'uniform' and bnd and not bad:
+                        trap = [((xs[min(i + 1, len(xs) - 1)] - xs[max(i - 1, 0)]) / 2) / (b[d] - a[d]) for i in range(len(xs))]
+                        bad = any(abs(x - y) > 1e-12 for x, y in zip(w, trap))
+                    if bad:
+                        rep.violation('C15_UniformIsTrapezoid' if kind == 'uniform' else 'C15_WeightsAreExactIntegrals', {'distribution': kind, 'multi_dim': True, 'boundary': bnd},
+                                      {'info': str(info), 'bounds': str(bounds), 'dimension': d, 'points': xs, 'weights': w, 'weights_of_a_one_dimensional_object': ref, 'query_order': order},
+                                      what='operation %s: weights of dimension %d (%s) on points %s are %s, a one-dimensional object of that distribution gives %s' % (info, d, kind, xs, w, ref))
+                        break
+
+
 def moment_runs(rep, tier, rng):
     """adaptive runs with the vector-valued model [f, c f + e, constant]; transformation identities on one and the same grid"""
     from sparseSpACE.GridOperation import UncertaintyQuantification
@@ -261,6 +319,7 @@ def run(tier, seed):
         test_tree(rep, g.states[sid], tier)
     rep.cov['spec_states_tested_on_impl'] = len(g.states)
     multi_dim_midpoints(rep, tier)
+    multi_dim_weights(rep, tier, rng)
     moment_runs(rep, tier, rng)
     rep.cov['exhaustive'] = True
     rep.cov['rule'] = ('every refinement tree of TreeQuad.tla x boxes x {uniform, triangle} (weights against spec rationals) and x {uniform, triangle, normal} '
